@@ -97,6 +97,13 @@ def run(ctx):
             recs.append(co.run_scenario(runner, ids, data, sc[0], **kw))
             recs[-1]["model"] = kind + ("/precise" if precise else "")
             ctx.case(key=(kind, precise, tuple(ids), tuple(data), repr(sc)))
+    # an algorithm object that already served another cohort: nothing learnt there is carried over to the next individuals
+    okr, detail = co.reused_algorithm_independent(co.Runner(kinds[0], tmp, ctx.seed + 1))
+    ctx.case(key=("reused_algorithm", kinds[0]))
+    ctx.log(f"re-used personalization algorithm object on {kinds[0]}: results after cohort X / after cohort Y / fresh -> {'identical' if okr else 'DIFFER'}")
+    if not okr:
+        ctx.violation({"check": "reused_algorithm", "kind": kinds[0]},
+                      f"personalized parameters of a cohort depend on the cohort the algorithm object served before: {detail}", replay=detail)
     ok, idx, r2 = cases.validate_records("CohortTrace", CFG_T, recs, tmp, "conf")
     ctx.traces += len(recs)
     ctx.states += r2.distinct
